@@ -451,32 +451,32 @@ def KTab.ghostAtRow (t : KTab) (j : Nat) : Ghost :=
 
 def KTab.pair (t : KTab) (j : Nat) : Pair := t.world.pairs.getD j default
 
-def expDiff (v : Verdict) (comp : String) (j : Nat) (o : ExpObs) (p : Pair) : Verdict :=
-  let v := v.diffIf (o.cnt != p.cnt || o.n != p.cell.n) s!"{comp} visits row={j} model={p.cnt}/{p.cell.n} impl={o.cnt}/{o.n}"
-  let v := v.diffIf (!(xClose o.mean p.cell.mean)) s!"{comp} reward row={j} model={ratStr p.cell.mean} impl={showX o.mean}"
-  v.diffIf (!(xClose o.m2 p.cell.m2)) s!"{comp} M2 row={j} model={ratStr p.cell.m2} impl={showX o.m2}"
+def expDiff (v : Verdict) (comp loc : String) (j : Nat) (o : ExpObs) (p : Pair) : Verdict :=
+  let v := v.diffIf (o.cnt != p.cnt || o.n != p.cell.n) s!"{comp} visits {loc} row={j} model={p.cnt}/{p.cell.n} impl={o.cnt}/{o.n}"
+  let v := v.diffIf (!(xClose o.mean p.cell.mean)) s!"{comp} reward {loc} row={j} model={ratStr p.cell.mean} impl={showX o.mean}"
+  v.diffIf (!(xClose o.m2 p.cell.m2)) s!"{comp} M2 {loc} row={j} model={ratStr p.cell.m2} impl={showX o.m2}"
 
-def expClause (v : Verdict) (comp : String) (w j : Nat) (o : ExpObs) (g : Ghost) (hv : Bool) : Verdict :=
-  let v := v.failIf (o.n != g.recs.length) s!"{comp} visitsSum_not_record_count_of_context row={j} impl={o.n} records={g.recs.length}"
+def expClause (v : Verdict) (comp loc : String) (w j : Nat) (o : ExpObs) (g : Ghost) (hv : Bool) : Verdict :=
+  let v := v.failIf (o.n != g.recs.length) s!"{comp} visitsSum_not_record_count_of_context {loc} row={j} impl={o.n} records={g.recs.length}"
   if hv then
-    let v := v.failIf (o.cnt != (List.range w).map (fun k => countS1 k g.recs)) s!"{comp} visits_not_record_count_of_context row={j} impl={o.cnt} want={(List.range w).map (fun k => countS1 k g.recs)}"
-    let v := v.failIf (!(xClose o.mean (meanOf g.recs))) s!"{comp} mean_not_empirical_of_context row={j} impl={showX o.mean} want={ratStr (meanOf g.recs)}"
-    v.failIf (!(xClose o.m2 (sqDevOf g.recs))) s!"{comp} m2_not_sum_sq_dev_of_context row={j} impl={showX o.m2} want={ratStr (sqDevOf g.recs)}"
+    let v := v.failIf (o.cnt != (List.range w).map (fun k => countS1 k g.recs)) s!"{comp} visits_not_record_count_of_context {loc} row={j} impl={o.cnt} want={(List.range w).map (fun k => countS1 k g.recs)}"
+    let v := v.failIf (!(xClose o.mean (meanOf g.recs))) s!"{comp} mean_not_empirical_of_context {loc} row={j} impl={showX o.mean} want={ratStr (meanOf g.recs)}"
+    v.failIf (!(xClose o.m2 (sqDevOf g.recs))) s!"{comp} m2_not_sum_sq_dev_of_context {loc} row={j} impl={showX o.m2} want={ratStr (sqDevOf g.recs)}"
   else v
 
-def modDiff (v : Verdict) (comp : String) (w j : Nat) (o : ModObs) (p : Pair) : Verdict :=
+def modDiff (v : Verdict) (comp loc : String) (w j : Nat) (o : ModObs) (p : Pair) : Verdict :=
   let rowBad := (List.range w).any (fun k => !(xClose (o.row.getD k .nan) (nthQ p.row k)))
-  let v := v.diffIf rowBad s!"{comp} row={j} model={p.row.map ratStr} impl={o.row.map showX}"
-  v.diffIf (!(xClose o.rew p.rew)) s!"{comp} reward row={j} model={ratStr p.rew} impl={showX o.rew}"
+  let v := v.diffIf rowBad s!"{comp} row {loc} row={j} model={p.row.map ratStr} impl={o.row.map showX}"
+  v.diffIf (!(xClose o.rew p.rew)) s!"{comp} reward {loc} row={j} model={ratStr p.rew} impl={showX o.rew}"
 
-def modClause (v : Verdict) (comp : String) (w j : Nat) (o : ModObs) (g : Ghost) : Verdict :=
+def modClause (v : Verdict) (comp loc : String) (w j : Nat) (o : ModObs) (g : Ghost) : Verdict :=
   let bad := (List.range w).any (fun k => !(xClose (o.row.getD k .nan) (specRow w 0 g k)))
   if g.snap.isEmpty then
-    let v := v.failIf bad s!"{comp} unvisited_row_not_default row={j} impl={o.row.map showX}"
-    v.failIf (!(xClose o.rew 0)) s!"{comp} unvisited_reward_not_zero row={j} impl={showX o.rew}"
+    let v := v.failIf bad s!"{comp} unvisited_row_not_default {loc} row={j} impl={o.row.map showX}"
+    v.failIf (!(xClose o.rew 0)) s!"{comp} unvisited_reward_not_zero {loc} row={j} impl={showX o.rew}"
   else
-    let v := v.failIf bad s!"{comp} row_not_frequency_of_context row={j} impl={o.row.map showX} want={(List.range w).map (fun k => ratStr (freqOf g.snap k))}"
-    v.failIf (!(xClose o.rew (meanOf g.snap))) s!"{comp} reward_not_mean_of_context row={j} impl={showX o.rew} want={ratStr (meanOf g.snap)}"
+    let v := v.failIf bad s!"{comp} row_not_frequency_of_context {loc} row={j} impl={o.row.map showX} want={(List.range w).map (fun k => ratStr (freqOf g.snap k))}"
+    v.failIf (!(xClose o.rew (meanOf g.snap))) s!"{comp} reward_not_mean_of_context {loc} row={j} impl={showX o.rew} want={ratStr (meanOf g.snap)}"
 
 structure CSt where
   g : AITB.Factored.DDNGraph
@@ -510,8 +510,8 @@ def dumpExp (st : CSt) (site : String) (last : Bool) : P CSt := do
     ((os.foldl (fun (acc : Verdict × Nat) o =>
       let j := acc.2
       let g := t.ghostAtRow j
-      let v := expDiff acc.1 s!"{t.expC}.{site} feature={i}" j o (t.pair j)
-      (expClause v s!"{t.expC}.{site} feature={i}" t.w j o g (heavy g.recs.length st.opIdx last), j + 1)) (v, 0))).1)
+      let v := expDiff acc.1 s!"{t.expC}.{site}" s!"feature={i}" j o (t.pair j)
+      (expClause v s!"{t.expC}.{site}" s!"feature={i}" t.w j o g (heavy g.recs.length st.opIdx last), j + 1)) (v, 0))).1)
   pure { st with v := v }
 
 def dumpMod (st : CSt) (site : String) : P CSt := do
@@ -519,8 +519,8 @@ def dumpMod (st : CSt) (site : String) : P CSt := do
   let v := foldTabs st.tabs obs st.v (fun v i t os =>
     ((os.foldl (fun (acc : Verdict × Nat) o =>
       let j := acc.2
-      let v := modDiff acc.1 s!"{t.modC}.{site} feature={i}" t.w j o (t.pair j)
-      (modClause v s!"{t.modC}.{site} feature={i}" t.w j o (t.ghostAtRow j), j + 1)) (v, 0))).1)
+      let v := modDiff acc.1 s!"{t.modC}.{site}" s!"feature={i}" t.w j o (t.pair j)
+      (modClause v s!"{t.modC}.{site}" s!"feature={i}" t.w j o (t.ghostAtRow j), j + 1)) (v, 0))).1)
   pure { st with v := v }
 
 def coopOp (st : CSt) : P CSt := do
@@ -539,8 +539,8 @@ def coopOp (st : CSt) : P CSt := do
       let v := foldTabs st.tabs (obs.zip ids) v (fun v i t oj =>
         let (o, j) := oj
         let g := t.ghostOf (s, a)
-        let v := expDiff v s!"CooperativeExperience.record feature={i}" j o (t.pair j)
-        expClause v s!"CooperativeExperience.record feature={i}" t.w j o g (heavy g.recs.length st.opIdx false))
+        let v := expDiff v s!"CooperativeExperience.record" s!"feature={i}" j o (t.pair j)
+        expClause v s!"CooperativeExperience.record" s!"feature={i}" t.w j o g (heavy g.recs.length st.opIdx false))
       let v := v.failIf (ts != st.ts) s!"CooperativeExperience.record timesteps_not_record_count impl={ts} want={st.ts}"
       pure { st with v := v, nRec := st.nRec + 1 }
   | "s" => do
@@ -550,8 +550,8 @@ def coopOp (st : CSt) : P CSt := do
       let v := foldTabs st.tabs obs st.v (fun v i t jo =>
         let (j, o) := jo
         let v := v.diffIf (j != t.idx (s, a)) s!"DDNGraph.getId feature={i} model={t.idx (s, a)} impl={j}"
-        let v := modDiff v s!"{t.modC}.syncSA feature={i}" t.w j o (t.pair j)
-        modClause v s!"{t.modC}.syncSA feature={i}" t.w j o (t.ghostOf (s, a)))
+        let v := modDiff v s!"{t.modC}.syncSA" s!"feature={i}" t.w j o (t.pair j)
+        modClause v s!"{t.modC}.syncSA" s!"feature={i}" t.w j o (t.ghostOf (s, a)))
       pure { st with v := v, nSync := st.nSync + 1 }
   | "x" => do
       let s ← P.rep P.nat nf; let a ← P.rep P.nat na; let ids ← P.rep P.nat nf
@@ -559,8 +559,8 @@ def coopOp (st : CSt) : P CSt := do
       let st := st.apply (.syncIdx ids s a)
       let v := foldTabs st.tabs (obs.zip ids) st.v (fun v i t oj =>
         let (o, j) := oj
-        let v := modDiff v s!"{t.modC}.syncIndeces feature={i}" t.w j o (t.pair j)
-        modClause v s!"{t.modC}.syncIndeces feature={i}" t.w j o (t.ghostOf (s, a)))
+        let v := modDiff v s!"{t.modC}.syncIndeces" s!"feature={i}" t.w j o (t.pair j)
+        modClause v s!"{t.modC}.syncIndeces" s!"feature={i}" t.w j o (t.ghostOf (s, a)))
       pure { st with v := v, nSync := st.nSync + 1 }
   | "S" => do
       let st := st.apply .syncAll
@@ -644,8 +644,8 @@ def fbOp (A : List Nat) (st : CSt) : P CSt := do
       let v := foldTabs st.tabs (obs.zip ids) v (fun v i t oj =>
         let (o, j) := oj
         let g := t.ghostOf ([], a)
-        let v := expDiff v s!"Factored::Bandit::Experience.record basis={i}" j o (t.pair j)
-        expClause v s!"Factored::Bandit::Experience.record basis={i}" 0 j o g (heavy g.recs.length st.opIdx false))
+        let v := expDiff v s!"Factored::Bandit::Experience.record" s!"basis={i}" j o (t.pair j)
+        expClause v s!"Factored::Bandit::Experience.record" s!"basis={i}" 0 j o g (heavy g.recs.length st.opIdx false))
       let v := v.failIf (ts != st.ts) s!"Factored::Bandit::Experience.record timesteps_not_record_count impl={ts} want={st.ts}"
       pure { st with v := v, nRec := st.nRec + 1 }
   | "R" => do
